@@ -16,6 +16,36 @@ mod utf8;
 
 use std::cell::Cell;
 
+/// Fault-injecting global allocator: requests of at least FAIL_ABOVE bytes are refused (returns NULL) while armed. It keeps no record
+/// of addresses, so LeakSanitizer / memcheck / Miri see exactly what the system allocator sees.
+pub static FAIL_ABOVE: std::sync::atomic::AtomicUsize = std::sync::atomic::AtomicUsize::new(usize::MAX);
+struct Inject;
+unsafe impl std::alloc::GlobalAlloc for Inject {
+    unsafe fn alloc(&self, l: std::alloc::Layout) -> *mut u8 {
+        if l.size() >= FAIL_ABOVE.load(std::sync::atomic::Ordering::Relaxed) {
+            return std::ptr::null_mut();
+        }
+        std::alloc::System.alloc(l)
+    }
+    unsafe fn alloc_zeroed(&self, l: std::alloc::Layout) -> *mut u8 {
+        if l.size() >= FAIL_ABOVE.load(std::sync::atomic::Ordering::Relaxed) {
+            return std::ptr::null_mut();
+        }
+        std::alloc::System.alloc_zeroed(l)
+    }
+    unsafe fn dealloc(&self, p: *mut u8, l: std::alloc::Layout) {
+        std::alloc::System.dealloc(p, l)
+    }
+    unsafe fn realloc(&self, p: *mut u8, l: std::alloc::Layout, new_size: usize) -> *mut u8 {
+        if new_size >= FAIL_ABOVE.load(std::sync::atomic::Ordering::Relaxed) {
+            return std::ptr::null_mut();
+        }
+        std::alloc::System.realloc(p, l, new_size)
+    }
+}
+#[global_allocator]
+static GLOBAL: Inject = Inject;
+
 thread_local! {
     pub static VIOLATIONS: Cell<u64> = Cell::new(0);
 }
@@ -91,6 +121,8 @@ fn main() {
         "c03-directed" => c03::directed(arg_u64(&args, 2, 400)),
         // build / interpreter probe: runs no code of the runtime, so that a defect there shows up in a monitored job, not in the set-up step
         "ping" => {}
+        // C12 / C03: the Rust-owned writer when the allocator refuses to grow it
+        "c12-oom" => c12::oom(arg_u64(&args, 2, 16) as usize, arg_u64(&args, 3, 5) as usize),
         _ => {
             eprintln!("usage: rtmon <c16-roundtrip|c16-utf8-exh|c16-utf8-lead4|c16-utf8-rand|c16-alloc|c12-exh|c12-rand|c03|c03-directed> ...");
             std::process::exit(64);
